@@ -1027,12 +1027,21 @@ func (fr *frame) loopEnv(li *loopInfo, c *Clause, phiVal func(p *ssa.Phi) *Val, 
 		}
 		if found == nil {
 			// a local cell by that name
+			// (several locals may share the name: take the innermost one whose declaration dominates this loop)
+			var bestL *ssa.Alloc
 			for _, l := range fr.fn.Locals {
-				if l.Comment == name {
-					if v, ok := fr.vals[l]; ok && v.lv != nil {
-						found = &Val{t: fr.u.read(st, v.lv)}
-					}
+				if l.Comment != name || l.Block() == nil || !(l.Block() == li.header || l.Block().Dominates(li.header)) {
+					continue
 				}
+				if v, ok := fr.vals[l]; !ok || v.lv == nil {
+					continue
+				}
+				if bestL == nil || bestL.Block().Dominates(l.Block()) {
+					bestL = l
+				}
+			}
+			if bestL != nil {
+				found = &Val{t: fr.u.read(st, fr.vals[bestL].lv)}
 			}
 		}
 		if found == nil && len(li.header.Instrs) > 0 {
